@@ -14,6 +14,9 @@ def m_zeros(I, shape, dtype=float, **kw):
 def m_len(I, x):
     if isinstance(x, Arr):
         return x.shape[0]
+    from vf.mstr import MStr
+    if isinstance(x, MStr):
+        return x.length
     return len(x)
 
 
